@@ -1,5 +1,38 @@
-"""Replay drivers: realise a solver model on the real code."""
+"""Replay drivers: realise a failed obligation on the real code.
+
+Each entry maps (function suffix, obligation-name regex) to an injected Go
+test. A FAILING test whose output contains CONFIRMED means the misbehaviour
+was observed on the real code."""
+import os
+import re
+
+ROOT = os.path.dirname(os.path.dirname(os.path.abspath(__file__)))
+import overlay  # noqa: E402
+
+MINT_FILES = ["replay/mint/zz_verif_helpers_test.go", "replay/mint/zz_verif_drivers_test.go"]
+
+# (fn regex, obligation regex, pkg, files, test name, args)
+DRIVERS = [
+    (r"mint\.Mint\)\.Swap$", r"pre:storage\.MintDB\.GetBlindSignatures@nonempty", "mint", MINT_FILES, "TestVerifReplay_EmptyOutputsSwap", None),
+    (r"mint\.Mint\)\.MintTokens$", r"pre:storage\.MintDB\.GetBlindSignatures@nonempty", "mint", MINT_FILES, "TestVerifReplay_EmptyOutputsMint", None),
+    (r"mint\.Mint\)\.ProofsStateCheck$", r"pre:storage\.MintDB\.Get(Pending|Used)Proofs.*@nonempty|pre:storage\.MintDB\.GetProofsUsed@nonempty", "mint", MINT_FILES, "TestVerifReplay_EmptyYsStateCheck", None),
+    (r"sqlite\.SQLiteDB\)\.(GetProofsUsed|GetPendingProofs)$", r"pre:strings\.Repeat@count", "mint", MINT_FILES, "TestVerifReplay_EmptyYsStateCheck", None),
+    (r"sqlite\.SQLiteDB\)\.GetBlindSignatures$", r"pre:strings\.Repeat@count", "mint", MINT_FILES, "TestVerifReplay_EmptyOutputsSwap", None),
+    (r"mint\.Mint\)\.Swap$", r"post@atomic", "mint", MINT_FILES, "TestVerifReplay_DupBSwap", None),
+    (r"mint\.Mint\)\.MintTokens$", r"post@revert|pre:storage\.MintDB\.UpdateMintQuoteState@legal", "mint", MINT_FILES, "TestVerifReplay_DupBMint|TestVerifReplay_MintStorageFault", None),
+    (r"mint\.Mint\)\.MintTokens$", r"boundary|post@faultrevert", "mint", MINT_FILES, "TestVerifReplay_MintStorageFault", None),
+    (r"mint\.Mint\)\.MeltTokens$", r"callsite:lightning\.Client\.SendPayment", "mint", MINT_FILES, "TestVerifReplay_MeltFeeLimit", None),
+    (r"mint\.Mint\)\.RequestMintQuote$", r"post@maxbalance", "mint", MINT_FILES, "TestVerifReplay_MintQuoteBalanceWrap", None),
+]
 
 
 def try_replay(pid, o, rec):
+    for fnre, obre, pkg, files, test, args in DRIVERS:
+        if re.search(fnre, o["fn"]) and re.search(obre, o["name"]):
+            fs = [os.path.join(ROOT, f) for f in files]
+            rc, out = overlay.run_go_test(pkg, fs, "^(" + test + ")$", args=args, timeout=120)
+            confirmed = rc != 0 and "CONFIRMED" in out
+            lines = [l for l in out.splitlines() if "CONFIRMED" in l or l.startswith("--- ") or l.startswith("ok") or l.startswith("FAIL")]
+            return {"driver": test, "pkg": pkg, "confirmed": confirmed, "returncode": rc, "output": "\n".join(lines)[-3000:],
+                    "cmd": "cd %s && python3 -c \"import sys; sys.path.insert(0,'lib'); import overlay; rc,out=overlay.run_go_test('%s', %r, '^(%s)$'); print(out); sys.exit(rc)\"" % (ROOT, pkg, fs, test)}
     return None
